@@ -14,6 +14,12 @@ fn scaling_component(vector: &Arr2D<f64>) -> f64 {
     }
 }
 
+fn rayleigh_quotient(matrix: &Arr2D<f64>, vector: &Arr2D<f64>) -> f64 {
+    let numerator = &vector.transpose() * (matrix * vector); // x_k^T * (A * x_k)
+    let denominator = &vector.transpose() * vector; // x_k^T * x_k
+    numerator.as_scalar_unchecked() / denominator.as_scalar_unchecked() // convert to f64
+}
+
 pub fn power_method<M>(matrix: M, es: f64) -> Result<(f64, Arr2D<f64>), Arr2DError>
 where
     M: TryInto<Arr2D<f64>, Error = Arr2DError>,
@@ -24,17 +30,19 @@ where
     }
     let initial_eigenvector = Arr2D::full(1.0, matrix.height, 1);
     let mut eigenvector = &matrix * initial_eigenvector;
-    let mut eigenvalue = scaling_component(&eigenvector);
-    eigenvector = eigenvector / eigenvalue; // Normalised Eigenvector
+    let first_scaling = scaling_component(&eigenvector);
+    eigenvector = eigenvector / first_scaling; // Normalised Eigenvector
+    // The stopping rule compares successive eigenvalue estimates, so the first one must be
+    // of the same kind as the later ones (a scaling component can agree with the first
+    // Rayleigh quotient by coincidence, long before either is accurate)
+    let mut eigenvalue = rayleigh_quotient(&matrix, &eigenvector);
     let mut iterations = 0;
     loop {
         eigenvector = &matrix * eigenvector;
         let normalisation_value = scaling_component(&eigenvector);
         let normalised_eigenvector = &eigenvector / normalisation_value;
 
-        let numerator = &normalised_eigenvector.transpose() * (&matrix * &normalised_eigenvector); // x_k^T * (A * x_k)
-        let denominator = &normalised_eigenvector.transpose() * &normalised_eigenvector; // x_k^T * x_k
-        let next_eigenvalue = numerator.as_scalar_unchecked() / denominator.as_scalar_unchecked(); // convert to f64
+        let next_eigenvalue = rayleigh_quotient(&matrix, &normalised_eigenvector);
 
         let ea = ((next_eigenvalue - eigenvalue) / next_eigenvalue).abs();
 
